@@ -141,21 +141,26 @@ def task(p, cse, ekf, tier, seed):
 
         leaves, _ = cf.run("pm")
         part.leaves_n(len(leaves))
-        if len(leaves) != 1:
-            part.harness_error(f"{key_base}: pm scenario forked: {len(leaves)}")
+        if not leaves:
+            part.harness_error(f"{key_base}: pm scenario produced no leaf")
             return part.d
-        l = leaves[0]
-        for s in ss:
-            oblige("pm", l, f"f_{s}", f[s], ("f", s), f"ProcessModel::model[{s}]")
-        for i in range(n):
-            for j in range(n):
-                oblige("pm", l, f"G_{i}_{j}", G[i][j], ("G", i, j), f"process_jacobian[d {ss[i]}/d {ss[j]}]")
-            for j in range(nc):
-                oblige("pm", l, f"V_{i}_{j}", V[i][j], ("V", i, j), f"control_jacobian[d {ss[i]}/d {sc[j]}]")
-        for i in range(nc):
-            for j in range(nc):
-                want = qval(p.process_noise[sc[i]]) if i == j else z3.RealVal(0)
-                oblige("pm", l, f"M_{i}_{j}", want, ("M", i, j), f"process noise[{sc[i]},{sc[j]}]")
+        # switching functions (sign / Piecewise ternaries) fork the generated code: one set of obligations per feasible path
+        multi_pm = len(leaves) > 1
+        for l in leaves:
+            if multi_pm and solve(assumes + l.pc, 5000).status == "unsat":
+                continue
+            sfx = f"/path{l.decisions}" if multi_pm else ""
+            for s in ss:
+                oblige("pm", l, f"f_{s}", f[s], ("f", s), f"ProcessModel::model[{s}]" + sfx, extra=l.pc)
+            for i in range(n):
+                for j in range(n):
+                    oblige("pm", l, f"G_{i}_{j}", G[i][j], ("G", i, j), f"process_jacobian[d {ss[i]}/d {ss[j]}]" + sfx, extra=l.pc)
+                for j in range(nc):
+                    oblige("pm", l, f"V_{i}_{j}", V[i][j], ("V", i, j), f"control_jacobian[d {ss[i]}/d {sc[j]}]" + sfx, extra=l.pc)
+            for i in range(nc):
+                for j in range(nc):
+                    want = qval(p.process_noise[sc[i]]) if i == j else z3.RealVal(0)
+                    oblige("pm", l, f"M_{i}_{j}", want, ("M", i, j), f"process noise[{sc[i]},{sc[j]}]" + sfx, extra=l.pc)
         part.sample({"program": p.id, "mode": "ekf", "cse": cse, "G_0_0": str(l.out.get("G_0_0"))[:160]})
         for key in p.s_sensors():
             rs = p.s_readings(key)
@@ -163,20 +168,25 @@ def task(p, cse, ekf, tier, seed):
             h, H = sens[key]
             leaves, _ = cf.run(f"sm:{key}")
             part.leaves_n(len(leaves))
-            if len(leaves) != 1:
-                part.harness_error(f"{key_base}: sm:{key} forked")
+            if not leaves:
+                part.harness_error(f"{key_base}: sm:{key} produced no leaf")
                 continue
-            l = leaves[0]
             sc_name = f"sm:{key}"
-            for r in rs:
-                oblige(sc_name, l, f"h_{r}", h[r], ("h", key, r), f"{key}.SensorModel::model[{r}]")
-                oblige(sc_name, l, f"rd_{r}", env[f"z_{key}_{r}"], ("rd", key, r), f"{key}.reading accessor[{r}]")
-            for i in range(m):
-                for j in range(n):
-                    oblige(sc_name, l, f"H_{i}_{j}", H[i][j], ("H", key, i, j), f"{key}.jacobian[d {rs[i]}/d {ss[j]}]")
-                for j in range(m):
-                    want = qval(p.sensor_noise[key][rs[i]]) if i == j else z3.RealVal(0)
-                    oblige(sc_name, l, f"Q_{i}_{j}", want, ("Q", key, i, j), f"{key}.noise[{rs[i]},{rs[j]}]")
+            multi_sm = len(leaves) > 1
+            for l in leaves:
+                if multi_sm and solve(assumes + l.pc, 5000).status == "unsat":
+                    continue
+                sfx = f"/path{l.decisions}" if multi_sm else ""
+                for r in rs:
+                    oblige(sc_name, l, f"h_{r}", h[r], ("h", key, r), f"{key}.SensorModel::model[{r}]" + sfx, extra=l.pc)
+                    oblige(sc_name, l, f"rd_{r}", env[f"z_{key}_{r}"], ("rd", key, r), f"{key}.reading accessor[{r}]" + sfx, extra=l.pc)
+                for i in range(m):
+                    for j in range(n):
+                        oblige(sc_name, l, f"H_{i}_{j}", H[i][j], ("H", key, i, j), f"{key}.jacobian[d {rs[i]}/d {ss[j]}]" + sfx, extra=l.pc)
+                    for j in range(m):
+                        want = qval(p.sensor_noise[key][rs[i]]) if i == j else z3.RealVal(0)
+                        oblige(sc_name, l, f"Q_{i}_{j}", want, ("Q", key, i, j), f"{key}.noise[{rs[i]},{rs[j]}]" + sfx, extra=l.pc)
+            l = leaves[0]
             sz = l.out.get("size")
             ok = sz is not None and z3.is_rational_value(z3.simplify(sz)) and z3.simplify(sz).numerator_as_long() == m
             part.record(Q("unsat" if ok else "sat", None, 0.0, ""), f"{key_base}/{key}.size == {m}")
@@ -234,6 +244,7 @@ def configs(tier, seed):
         out.append((CP.P28(), True, True))
         out.append((CP.P30(), True, True))
         out.append((CP.P29(), True, True))
+        out.append((CP.P31(), True, True))
         out.append((CP.P11(), True, False))  # inverse-function compositions, Model mode
         out.append((CP.P18(), True, False))  # Piecewise / Max / Min, Model mode (path per switch)
         return out
